@@ -2491,6 +2491,9 @@ func (c *codegen) convertByteSliceOrArray(elems map[int64]ast.Expr, size int64) 
 			varIndices = append(varIndices, i)
 		}
 	}
+	// Elements come from a map, keep the emitted code (and the order elements
+	// are evaluated in) the same for every compilation.
+	slices.Sort(varIndices)
 	emit.Bytes(c.prog.BinWriter, buf)
 	c.emitConvert(stackitem.BufferT)
 	for _, i := range varIndices {
